@@ -388,6 +388,8 @@ func (c *cacheWrap) Sync() error {
 
 // Rig is one STFS instance composed the way cmd/stfs and examples/ compose it, with all seams installed.
 type Rig struct {
+	FSCache    string // filesystem cache type of the documented composition ("" = none, "dir", "memory")
+	FSCacheDir string
 	Cfg   Cfg
 	Dir   string
 	Drive string
@@ -537,7 +539,11 @@ func (r *Rig) Init() error {
 		return err
 	}
 	r.Root = root
-	f, err := cache.NewCacheFilesystem(r.S, root, config.NoneKey, 0, "")
+	ct := config.NoneKey
+	if r.FSCache != "" {
+		ct = r.FSCache
+	}
+	f, err := cache.NewCacheFilesystem(r.S, root, ct, time.Hour, r.FSCacheDir)
 	if err != nil {
 		return err
 	}
